@@ -145,7 +145,6 @@ the document lists the members in `all_fields` order, the instance holds them in
 (`slotsOf`), the wire form lists them in declaration order (`docOf`). -/
 theorem example_roundtrip_core (E : Ext) (C : CExt) (us : List CUnion) (env : Env) (cs : CStruct) (sd : StructDef)
     (ex : List (String × ExVal))
-    (hpat : ∀ p s, C.prefixMatch p s = true → E.patMatch p s = true)
     (hsd : structDefOfC us cs = some sd) (henv : env.struct? cs.cls = some sd)
     (hscalar : ∀ f ∈ cs.allFields, scalarTy f.ty = true)
     (hpub : ∀ f ∈ cs.allFields, f.omitted = none)
@@ -184,7 +183,7 @@ theorem example_roundtrip_core (E : Ext) (C : CExt) (us : List CUnion) (env : En
   have hchk := addStructExample_fields hadd
   have hfield : ∀ f ∈ cs.allFields, ∀ fd, fieldDefOfC us f = some fd →
       structExampleMember ex f = some ((docVal ex f).map fun j => (f.name, j)) ∧ StepOK E env fd (docVal ex f) :=
-    fun f hf fd hfd => field_step E C us env hpat ex f fd (hscalar f hf) hfd (hdef f hf) (hexact f hf).1 (hexact f hf).2
+    fun f hf fd hfd => field_step E C us env ex f fd (hscalar f hf) hfd (hdef f hf) (hexact f hf).1 (hexact f hf).2
       (hchk f hf)
   have hdoc : structExampleDoc cs ex = some (.obj kvs) := by
     unfold structExampleDoc
@@ -256,7 +255,6 @@ WHAT IS MISSING in `example_roundtrip_partial` below:
   different JSON token;
 * fields omitted for a caller class (`omitted`): the example document lists them, a caller without
   permissions neither decodes (strict) nor encodes them;
-* the pattern law `hpat` (D12: the compiler tests a prefix match, the runtime a whole-string match).
 -/
 
 /-- ROUND TRIP OF FLAT STRUCT EXAMPLES OVER SCALAR FIELDS.
@@ -269,7 +267,6 @@ form; and the wire form of the instance has exactly the members of the document 
 of `all_fields` order: a permutation). -/
 theorem example_roundtrip_partial (E : Ext) (C : CExt) (us : List CUnion) (env : Env) (cs : CStruct) (sd : StructDef)
     (ex : List (String × ExVal))
-    (hpat : ∀ p s, C.prefixMatch p s = true → E.patMatch p s = true)
     (hsd : structDefOfC us cs = some sd) (henv : env.struct? cs.cls = some sd)
     (hscalar : ∀ f ∈ cs.allFields, scalarTy f.ty = true)
     (hpub : ∀ f ∈ cs.allFields, f.omitted = none)
@@ -285,7 +282,7 @@ theorem example_roundtrip_partial (E : Ext) (C : CExt) (us : List CUnion) (env :
       normalB env (.struct {} cs.cls) (.struct cs.cls slots) = true ∧
       (cs.cls ∈ cs.chain.map (·.1) → validB E env (.struct {} cs.cls) (.struct cs.cls slots) = true) := by
   obtain ⟨h1, h2, h3, h4, h5, h6⟩ :=
-    example_roundtrip_core E C us env cs sd ex hpat hsd henv hscalar hpub hnd hdef hexact hadd
+    example_roundtrip_core E C us env cs sd ex hsd henv hscalar hpub hnd hdef hexact hadd
   exact ⟨_, _, h1, h2, by rw [jsonCompatObjDecode_struct]; exact h2, ⟨_, h3, h4⟩, h5, h6⟩
 
 /-! ### the hypotheses as Boolean tests (convenient for concrete instances) -/
@@ -329,7 +326,6 @@ theorem hdef_of_dfltOK {E : Ext} {C : CExt} {us : List CUnion} {f : CField} (h :
 /-- `example_roundtrip_partial` with the per-field hypotheses as one Boolean test -/
 theorem example_roundtrip_partial' (E : Ext) (C : CExt) (us : List CUnion) (env : Env) (cs : CStruct) (sd : StructDef)
     (ex : List (String × ExVal))
-    (hpat : ∀ p s, C.prefixMatch p s = true → E.patMatch p s = true)
     (hsd : structDefOfC us cs = some sd) (henv : env.struct? cs.cls = some sd)
     (hfields : (cs.allFields.all fun f => scalarTy f.ty && f.omitted.isNone && dfltOK E C us f && exactOK ex f) = true)
     (hnd : (cs.allFields.map (·.name)).Nodup)
@@ -346,7 +342,7 @@ theorem example_roundtrip_partial' (E : Ext) (C : CExt) (us : List CUnion) (env 
     have := hfields f hf
     simp only [Bool.and_eq_true, Option.isNone_iff_eq_none] at this
     exact ⟨this.1.1.1, this.1.1.2, this.1.2, this.2⟩
-  exact example_roundtrip_partial E C us env cs sd ex hpat hsd henv (fun f h => (hf f h).1) (fun f h => (hf f h).2.1) hnd
+  exact example_roundtrip_partial E C us env cs sd ex hsd henv (fun f h => (hf f h).1) (fun f h => (hf f h).2.1) hnd
     (fun f h => hdef_of_dfltOK (hf f h).2.2.1) (fun f h => hexact_of_exactOK (hf f h).2.2.2) hadd
 
 /-! ### non-vacuity: a struct with a parent, a defaulted field and a nullable field -/
@@ -367,9 +363,9 @@ def rtE : Ext where
   strOfInt _ := ""
   strOfFlt _ := ""
 
-/-- a compiler whose pattern test is the runtime's (the law `hpat` holds) -/
+/-- the compile-time external calls (the pattern test is the runtime's own, `E.patMatch`) -/
 def rtC : CExt where
-  prefixMatch := rtE.patMatch
+  intExact _ := true
   strptimeOk _ _ := false
 
 /-- `struct Base { id Int64; note String? }`,
@@ -417,19 +413,21 @@ example : ∃ kvs slots, structExampleDoc rtItem rtEx = some (.obj kvs) ∧
     (∃ kvs', wire rtE rtEnv (.struct {} rtItem.cls) (.struct rtItem.cls slots) = .obj kvs' ∧ kvs'.Perm kvs) ∧
     normalB rtEnv (.struct {} rtItem.cls) (.struct rtItem.cls slots) = true ∧
     (rtItem.cls ∈ rtItem.chain.map (·.1) → validB rtE rtEnv (.struct {} rtItem.cls) (.struct rtItem.cls slots) = true) :=
-  example_roundtrip_partial' rtE rtC [] rtEnv rtItem rtItemDef rtEx (fun _ _ h => h) rfl rfl rfl (by decide) rfl
+  example_roundtrip_partial' rtE rtC [] rtEnv rtItem rtItemDef rtEx rfl rfl rfl (by decide) rfl
 
 def rtB : CStruct := { cls := "ns.B", chain := [("ns.B", [{ name := "k", ty := .int "Int32" none none }])] }
 def rtBEnv : Env := { structs := ((structDefOfC [] rtB).map fun sd => [sd]).getD [], unions := [] }
 
-/-- the hypothesis `exactOK` is needed: `true` written for an integer field is accepted by the compiler and by the
-strict decoder, but the instance re-encodes as `1` — the wire form is not the document. -/
+/-- regression (formerly the witness that `exactOK` is needed for booleans): `true` written for an integer field
+used to be accepted by the compiler; the strict decoder still takes the document and the instance re-encodes as
+`1` — the wire form is not the document. Since the repair of `_BoundedInteger.check` the compiler refuses the
+example, so no such document is computed any more. -/
 example :
     (structDefOfC [] rtB).isSome = true ∧ rtBEnv.struct? "ns.B" = structDefOfC [] rtB ∧
-    addStructExample rtE rtC [] rtB [("k", .lit (.bool true))] = .ok () ∧
-    structExampleDoc rtB [("k", .lit (.bool true))] = some (.obj [("k", .bool true)]) ∧
+    addStructExample rtE rtC [] rtB [("k", .lit (.bool true))] =
+      .error (.invalid "Bad example for field: boolean is not a valid integer") ∧
     decode rtE rtBEnv [] true (.struct {} "ns.B") (.obj [("k", .bool true)]) = .ok (.struct "ns.B" [("k", .bool true)]) ∧
     wire rtE rtBEnv (.struct {} "ns.B") (.struct "ns.B" [("k", .bool true)]) = .obj [("k", .int 1)] :=
-  ⟨rfl, rfl, rfl, rfl, rfl, rfl⟩
+  ⟨rfl, rfl, rfl, rfl, rfl⟩
 
 end StoneVerif.IrCheck
